@@ -1,12 +1,18 @@
 //! Monitor registry: name -> (property, entry point)
 use crate::Ctx;
 
+pub mod c01;
 pub mod c02;
+pub mod c08;
 
 pub type MonFn = fn(&mut Ctx);
 
 pub fn registry() -> Vec<(&'static str, &'static str, MonFn)> {
     vec![
+        ("c01_hist", "C01", c01::random_histories as MonFn),
+        ("c08_exh", "C08", c08::exhaustive as MonFn),
+        ("c08_rand", "C08", c08::random as MonFn),
+        ("c08_case", "C08", c08::single as MonFn),
         ("c02_pairs", "C02", c02::pairs as MonFn),
     ]
 }
